@@ -96,6 +96,9 @@ func nestedFor(r *Run, oracles []string) []Spec {
 		if !r.Thorough() && (sp.Name == "nested-arr-root" || sp.Name == "nested-map-root") {
 			sp.Extra["nosettype"] = 1
 		}
+		if !r.Thorough() && r.ID != "C05" && (sp.Name == "nested-parent-split" || sp.Name == "nested-parent-split-map") {
+			continue // the parent-splitting universes are the expensive ones; C05 and C10 run them in the quick tier
+		}
 		out = append(out, sp)
 	}
 	return out
